@@ -108,6 +108,7 @@ func main() {
 		if thorough {
 			capPB = 0
 		}
+		famDesc = append(famDesc, durFamily(thorough, add, sub, []int{0, 1}))
 		// retry matrix (the property's own quantifier): every limit 0..L and "fail the first k attempts"
 		// with k below, at and above the limit (and always), alone and with a dependent; PB(0) with both
 		// intervals, PB(1) without an interval in the three done arrangements
@@ -161,6 +162,7 @@ func main() {
 		res.Bounds["np_complete_n_le"] = 3
 	case "C15":
 		c15family(thorough, add)
+		famDesc = append(famDesc, durFamily(thorough, add, sub, []int{1, 2}))
 		// the limit next to failure containment, skips and arbitrary dependency shapes (a step that is
 		// refused or canceled must not hold a slot): the general program family under every limit
 		family(famOpts{n: 2, scripts: scriptsFull, maxActive: []int{1, 2}, delays: []int{0}, intervalMs: 1000, coAll: true}, sub)
